@@ -290,6 +290,27 @@ example :
     out.2.get (threadKey t) = some [4, 104] := by
   decide
 
+/-- **Threads never mix, other actors included (frame over histories).** A key changes only through a
+    completed turn on the thread with that key, an external change of that very key, or a datastore swap:
+    after any history in which none of these happened for `k`, the datastore holds for `k` exactly what it
+    held before — whatever was done to other threads, by whichever process. -/
+theorem threads_do_not_mix_ops {M : Type} (cfg : Cfg) (pathOk : Str → Bool) (gen : Gen M) (w : World M) (ops : List (Op M)) (k : Str)
+    (h : touchedIn k ops (runOps cfg pathOk gen w ops).1 = false) :
+    (runOps cfg pathOk gen w ops).2.get k = w.get k := by
+  rw [runOps_get, absRun_untouched ops _ _ k h]
+
+/-- non-vacuity: a history full of turns, external changes and process switches on thread `t` does not touch thread `u`. -/
+example :
+    let cfg : Cfg := { root := "/srv/configs".toList, cwd := "/".toList, single := none, default := none, hasStore := true, streaming := false }
+    let t := "tttttttttttttttt".toList
+    let u := "uuuuuuuuuuuuuuuu".toList
+    let mk (m : Nat) : Op Nat := .req { configId := some "a".toList, configIds := none, threadId := some t, context := none, messages := [m], stream := false }
+    let ops : List (Op Nat) := [mk 1, .ext (threadKey t) (fun _ => some [7, 8]), .proc 1, mk 2, .restart, .ext (threadKey t) (fun _ => none), mk 3]
+    let w : World Nat := { st := { store := [(threadKey u, [5, 6])] } }
+    touchedIn (threadKey u) ops (runOps cfg (fun _ => true) (fun turn _ _ => some (100 + turn)) w ops).1 = false ∧
+    (runOps cfg (fun _ => true) (fun turn _ _ => some (100 + turn)) w ops).2.get (threadKey u) = some [5, 6] := by
+  decide
+
 /-- **Only confined paths are ever loaded — every history, every process.** From the initial world, after
     any history: every path handed to `RailsConfig.from_path` by any process, every path of every cached
     instance of every process (also after restarts and evictions) and every serving instance is inside the root. -/
